@@ -222,6 +222,11 @@ fn main() {
             }
             // C10: without and with the dominance checker
             "dom" => {
+                if !m.pot.is_empty() {
+                    // with potentials the value of a state is shifted by phi(state): the value-using rule of the model families is not a
+                    // valid dominance relation there (C10 presupposes a valid one)
+                    continue;
+                }
                 let (e, ret) = run_seq(m, &base);
                 out.put(m, inst_id, &base, "base", -1, false, e, ret);
                 for cache in [false, true] {
